@@ -61,8 +61,8 @@ def write_input(path, seed):
             rows.append("mut_%s\t%s\t%d\t%d\t1\t1\t2" % (m, s, depth - alt, alt))
     with open(path, "w") as fh:
         fh.write("\n".join(rows) + "\n")
-    # pre-clustering (integer cluster ids): a, b together; h, i together; the rest alone
-    cl = {"a": 0, "b": 0, "c": 1, "i": 1, "d": 2, "e": 3, "j": 3, "f": 4, "g": 5, "h": 6}
+    # pre-clustering (integer cluster ids that neither start at 0 nor are contiguous): a, b together; c, i together; e, j together
+    cl = {"a": 2, "b": 2, "c": 5, "i": 5, "d": 7, "e": 11, "j": 11, "f": 12, "g": 20, "h": 31}
     with open(path + ".clusters.tsv", "w") as fh:
         fh.write("mutation_id\tcluster_id\n" + "".join("mut_%s\t%d\n" % (m, c) for m, c in cl.items()))
 
